@@ -71,9 +71,9 @@ def ainsert : List (κ × β) → κ → β → List (κ × β)
   | [], x, v => [(x, v)]
   | (k, w) :: r, x, v => if k = x then (k, v) :: r else (k, w) :: ainsert r x v
 
-def aerase : List (κ × β) → κ → List (κ × β)
-  | [], _ => []
-  | (k, w) :: r, x => if k = x then r else (k, w) :: aerase r x
+/-- `del d[x]` (keys are unique in a dict; removing every entry with the key keeps the lemmas
+    unconditional) -/
+def aerase (l : List (κ × β)) (x : κ) : List (κ × β) := l.filter (fun e => decide (e.1 ≠ x))
 
 end AList
 
